@@ -267,13 +267,15 @@ func TestCheck(t *testing.T) {
 	r.Set("distinct_nontrivial", r.Get("distinct_recovered_states"))
 	r.Set("rule", "per configuration (role x Application variant x WAL): every input sequence of total length <= L over the alphabet, "+
 		"the process killed just before and just after every effect the driver performs (WAL append, WAL flush incl. batch lost/landed, "+
-		"each broadcast, timeout scheduling, commit callback, WAL prune; each kill is a real re-execution stopped by a sentinel panic), a new "+
+		"each broadcast, timeout scheduling, commit callback, WAL prune; each kill is a real re-execution stopped by a sentinel panic), and, at every commit callback, "+
+		"an ORDERLY stop inside it (service context cancelled, callback reports failure, Driver.Run returns and its deferred Close runs on the live store; durable state = what that exit leaves), a new "+
 		"driver/machine/Application incarnation booted on the frozen durable state and fed every enabled continuation (and, separately, the "+
 		"in-flight input again first); evaluations = (crash point, continuation) pairs judged; distinct_nontrivial = distinct recovered durable "+
 		"states booted; kinds of crash point seen: "+strings.Join(kinds, ", "))
 	r.Assume = append(r.Assume,
 		"validator set: 4 validators of power 1 (f=1, quorum 3); peers A then B send votes (each at most one vote per kind/height/round), C is silent, so no future-height precommit quorum (TriggerSync / block fetcher are outside this property)",
-		"one crash per execution; the process image dies completely (kill -9): nothing buffered survives, only what the WAL store made durable and the blocks whose commit callback returned",
+		"one stop per execution; a kill takes the whole process image (kill -9): nothing buffered survives, only what the WAL store made durable and the blocks whose commit callback returned; "+
+			"an orderly stop is only injected inside commit callbacks (the one place where the driver consults its context in the middle of an action list)",
 		"a restarted node builds its state machine at blockchain height + 1 exactly as consensus.Init does; Application.Valid is deterministic",
 		"reference WAL = the documented TendermintWALStore contract (pending until Flush, batch atomic); real walstore tier: crash images at whole filesystem-op granularity, namespace ops durable (byte cuts / torn tails / metadata lag are C14's)",
 		"timeouts: virtual time (testing/synctest); an armed timer fires only where the script has the matching timeout symbol; stale timers that cause no effect are not enumerated as inputs",
